@@ -84,7 +84,7 @@ var externalWritesArg = map[string][]int{
 	"(encoding/binary.bigEndian).PutUint16":     {1},
 	"(encoding/binary.bigEndian).PutUint32":     {1},
 	"(encoding/binary.bigEndian).PutUint64":     {1},
-	"io.ReadFull":                               {1},
+	"io.ReadFull":                               {0, 1}, // the reader is advanced (stateful), the buffer is filled
 	"crypto/rand.Read":                          {0},
 	"iface:crypto/cipher.BlockMode.CryptBlocks": {0},
 	"sort.Slice":                                {0},
